@@ -16,6 +16,9 @@ Sem/Model.vos Sem/Model.vok Sem/Model.required_vos: Sem/Model.v Core/Base.vos Co
 Sem/InterpFacts.vo Sem/InterpFacts.glob Sem/InterpFacts.v.beautified Sem/InterpFacts.required_vo: Sem/InterpFacts.v Core/Base.vo Core/Prog.vo Sem/Interp.vo
 Sem/InterpFacts.vio: Sem/InterpFacts.v Core/Base.vio Core/Prog.vio Sem/Interp.vio
 Sem/InterpFacts.vos Sem/InterpFacts.vok Sem/InterpFacts.required_vos: Sem/InterpFacts.v Core/Base.vos Core/Prog.vos Sem/Interp.vos
+Sem/StmtFacts.vo Sem/StmtFacts.glob Sem/StmtFacts.v.beautified Sem/StmtFacts.required_vo: Sem/StmtFacts.v Core/Base.vo Core/Prog.vo Sem/Interp.vo Sem/InterpFacts.vo
+Sem/StmtFacts.vio: Sem/StmtFacts.v Core/Base.vio Core/Prog.vio Sem/Interp.vio Sem/InterpFacts.vio
+Sem/StmtFacts.vos Sem/StmtFacts.vok Sem/StmtFacts.required_vos: Sem/StmtFacts.v Core/Base.vos Core/Prog.vos Sem/Interp.vos Sem/InterpFacts.vos
 Sem/Show.vo Sem/Show.glob Sem/Show.v.beautified Sem/Show.required_vo: Sem/Show.v Core/Base.vo
 Sem/Show.vio: Sem/Show.v Core/Base.vio
 Sem/Show.vos Sem/Show.vok Sem/Show.required_vos: Sem/Show.v Core/Base.vos
@@ -43,3 +46,9 @@ Thm/C07/Switch.vos Thm/C07/Switch.vok Thm/C07/Switch.required_vos: Thm/C07/Switc
 Props/C07.vo Props/C07.glob Props/C07.v.beautified Props/C07.required_vo: Props/C07.v Core/Base.vo Core/Prog.vo Sem/Interp.vo Sem/InterpFacts.vo Gen/State.vo Sem/ScnSwitch.vo Thm/C07/Switch.vo
 Props/C07.vio: Props/C07.v Core/Base.vio Core/Prog.vio Sem/Interp.vio Sem/InterpFacts.vio Gen/State.vio Sem/ScnSwitch.vio Thm/C07/Switch.vio
 Props/C07.vos Props/C07.vok Props/C07.required_vos: Props/C07.v Core/Base.vos Core/Prog.vos Sem/Interp.vos Sem/InterpFacts.vos Gen/State.vos Sem/ScnSwitch.vos Thm/C07/Switch.vos
+Thm/C01/Gate.vo Thm/C01/Gate.glob Thm/C01/Gate.v.beautified Thm/C01/Gate.required_vo: Thm/C01/Gate.v Core/Base.vo Core/Prog.vo Py/Sig.vo Sem/Interp.vo Sem/InterpFacts.vo Sem/StmtFacts.vo Sem/Model.vo Gen/Validators.vo Gen/HasPatcher.vo Gen/Contracts.vo
+Thm/C01/Gate.vio: Thm/C01/Gate.v Core/Base.vio Core/Prog.vio Py/Sig.vio Sem/Interp.vio Sem/InterpFacts.vio Sem/StmtFacts.vio Sem/Model.vio Gen/Validators.vio Gen/HasPatcher.vio Gen/Contracts.vio
+Thm/C01/Gate.vos Thm/C01/Gate.vok Thm/C01/Gate.required_vos: Thm/C01/Gate.v Core/Base.vos Core/Prog.vos Py/Sig.vos Sem/Interp.vos Sem/InterpFacts.vos Sem/StmtFacts.vos Sem/Model.vos Gen/Validators.vos Gen/HasPatcher.vos Gen/Contracts.vos
+Props/C01.vo Props/C01.glob Props/C01.v.beautified Props/C01.required_vo: Props/C01.v Core/Base.vo Core/Prog.vo Py/Sig.vo Sem/Interp.vo Sem/InterpFacts.vo Sem/Model.vo Gen/Validators.vo Gen/HasPatcher.vo Gen/Contracts.vo Sem/Scenario.vo Thm/C01/Gate.vo
+Props/C01.vio: Props/C01.v Core/Base.vio Core/Prog.vio Py/Sig.vio Sem/Interp.vio Sem/InterpFacts.vio Sem/Model.vio Gen/Validators.vio Gen/HasPatcher.vio Gen/Contracts.vio Sem/Scenario.vio Thm/C01/Gate.vio
+Props/C01.vos Props/C01.vok Props/C01.required_vos: Props/C01.v Core/Base.vos Core/Prog.vos Py/Sig.vos Sem/Interp.vos Sem/InterpFacts.vos Sem/Model.vos Gen/Validators.vos Gen/HasPatcher.vos Gen/Contracts.vos Sem/Scenario.vos Thm/C01/Gate.vos
